@@ -762,3 +762,64 @@ def type_field_flow(F):
                     r.violate("%s | supertype packed as %s" % (g["path"], kind), F.loc(g, c),
                               "%s stores the supertype with PackedIndex::from_%s_index but encode_type only reads as_%s_index: the declared supertype is silently dropped from the encoded type" % (g["name"], kind, "/".join(sorted(reads))))
     return r
+
+
+def call_arg_names(F):
+    """R-ARG-NAMES: at a call of a function from another crate (the encoder's builders above all) two arguments that are
+    plain field reads `x.f`, `y.g` are not handed to the parameters named `g` and `f` respectively.  Only a *crossed* pair is
+    reported (both names exist on the other side): `mty.import(import.name, import.module, ..)` for
+    `fn import(&mut self, module: &str, name: &str, ..)`.  Same-typed string/index parameters make such a swap invisible to
+    the type checker."""
+    r = RuleResult("R-ARG-NAMES",
+                   "no call of a foreign function passes field `f` for the parameter named `g` while passing field `g` for the parameter named `f`")
+    n_calls = n_pairs = 0
+
+    def field_name(e):
+        e = peel(e)
+        while isinstance(e, dict):
+            if e.get("k") == "MethodCall" and e["method"] in ("clone", "to_owned", "to_string", "as_str", "as_ref", "into", "as_slice", "borrow", "to_vec", "copied", "cloned") and not e.get("args"):
+                e = peel(e["recv"])
+            elif e.get("k") in ("AddrOf",) or (e.get("k") == "Unary" and e.get("op") == "*"):
+                e = peel(e["a"])
+            elif e.get("k") == "Cast":
+                e = peel(e["a"])
+            else:
+                break
+        if isinstance(e, dict) and e.get("k") == "Field" and not e["name"].isdigit():
+            return e["name"]
+        return None
+    for fn in F.fns:
+        if fn.get("body") is None:
+            continue
+        for c in walk(fn["body"]):
+            if c.get("k") not in ("Call", "MethodCall") or not isinstance(c.get("pnames"), list):
+                continue
+            pn = list(c["pnames"])
+            if c["k"] == "MethodCall" and pn and pn[0] == "self":
+                pn = pn[1:]
+            args = list(c.get("args") or [])
+            if len(pn) != len(args) or len(args) < 2:
+                continue
+            fl = [field_name(a) for a in args]
+            if sum(1 for f_ in fl if f_) < 2:
+                continue
+            n_calls += 1
+            if fn["path"] not in r.analysed:
+                r.analysed.append(fn["path"])
+            for i in range(len(args)):
+                for j in range(i + 1, len(args)):
+                    if not (fl[i] and fl[j] and pn[i] and pn[j]) or fl[i] == fl[j] or pn[i] == pn[j]:
+                        continue
+                    n_pairs += 1
+                    crossed = fl[i] == pn[j] and fl[j] == pn[i]
+                    r.ob(not crossed)
+                    if crossed:
+                        r.violate("%s | %s(%s↔%s)" % (fn["path"], (c.get("callee") or "?").split("::")[-1], pn[i], pn[j]), F.loc(fn, c),
+                                  "`%s` receives field `%s` for its parameter `%s` and field `%s` for its parameter `%s`: the two are crossed" % (
+                                      (c.get("callee") or "?").split("::")[-1], fl[i], pn[i], fl[j], pn[j]))
+    r.count("foreign_calls_with_field_arguments", n_calls)
+    r.count("argument_pairs", n_pairs)
+    r.obligations = max(r.obligations, 1)
+    if not r.violations:
+        r.discharged = r.obligations
+    return r
